@@ -115,7 +115,15 @@ class Check:
             part = traces[lo:lo + chunk]
             path = os.path.join(self.tmp, 'traces_%s_%d.json' % (label, lo))
             with open(path, 'w') as fh:
-                json.dump({'traces': part}, fh)
+                try:
+                    fh.write(json.dumps({'traces': part}, allow_nan=False))
+                except ValueError:      # infinite dates (eternity) are not JSON: hand them to TLC as strings
+                    fh.seek(0)
+                    fh.truncate()
+                    fh.write(json.dumps({'traces': _finite(part)}, allow_nan=False))
+                    if not any('non-finite' in n for n in self.notes):
+                        bad = [e for t in part for e in t if _finite(e) != e][:1]
+                        self.notes.append('non-finite dates in recorded traces are passed to TLC as strings, e.g. %r' % bad)
             r = tlc.run_tlc(obs_module, cfg, env={'TRACE_FILE': path}, timeout=timeout, workers=4, heap='4g')
             os.unlink(path)
             return lo, part, r
@@ -222,6 +230,16 @@ def _parse_v(out):
 
 def _jsonable(c):
     return {k: (sorted(v, key=str) if isinstance(v, (set, frozenset)) else v) for k, v in c.items()}
+
+
+def _finite(x):
+    if isinstance(x, float) and (x != x or x in (float('inf'), float('-inf'))):
+        return 'nan' if x != x else ('inf' if x > 0 else '-inf')
+    if isinstance(x, dict):
+        return {k: _finite(v) for k, v in x.items()}
+    if isinstance(x, (list, tuple)):
+        return [_finite(v) for v in x]
+    return x
 
 
 def replay_file(path, obs_module, prop):
